@@ -999,4 +999,223 @@ theorem class_lookup_old_fails :
     specClassNumbers [("ccf".toList, 1)] "ccf".toList = [1] ∧
     classNumbers keyNew [("ccf".toList, 1)] "ccf".toList = [1] := by decide
 
+/-! ### letter case: upper-casing never touches the characters the layout is made of -/
+
+/-- the characters that carry layout: white space, the comment sign, the continuation marker -/
+def layoutChar (c : Char) : Bool := ws c || c == '!' || c == '='
+
+theorem lower_is_ofNat (c : Char) (h : 'a'.val ≤ c.val ∧ c.val ≤ 'z'.val) :
+    ∃ n : Fin 26, c = Char.ofNat (97 + n.val) := by
+  have ha : 'a'.val.toNat = 97 := by decide
+  have hz : 'z'.val.toNat = 122 := by decide
+  have h1 : 97 ≤ c.toNat := by
+    have := UInt32.le_iff_toNat_le.mp h.1
+    rw [ha] at this; exact this
+  have h2 : c.toNat ≤ 122 := by
+    have := UInt32.le_iff_toNat_le.mp h.2
+    rw [hz] at this; exact this
+  refine ⟨⟨c.toNat - 97, by omega⟩, ?_⟩
+  have : 97 + (c.toNat - 97) = c.toNat := by omega
+  simp only [this, Char.ofNat_toNat]
+
+theorem lower_table : ∀ n : Fin 26,
+    layoutChar (Char.ofNat (97 + n.val)) = false ∧ layoutChar (Char.ofNat (97 + n.val)).toUpper = false ∧
+    (Char.ofNat (97 + n.val)).toUpper.toUpper = (Char.ofNat (97 + n.val)).toUpper := by decide
+
+theorem toUpper_spec (c : Char) :
+    c.toUpper = c ∨ (layoutChar c = false ∧ layoutChar c.toUpper = false ∧ c.toUpper.toUpper = c.toUpper) := by
+  by_cases h : 'a'.val ≤ c.val ∧ c.val ≤ 'z'.val
+  · right
+    obtain ⟨n, rfl⟩ := lower_is_ofNat c h
+    exact lower_table n
+  · left
+    unfold Char.toUpper
+    rw [dif_neg h]
+
+
+theorem layout_of_not (c : Char) (h : layoutChar c = false) : ws c = false ∧ c ≠ '!' ∧ c ≠ '=' := by
+  simp only [layoutChar, Bool.or_eq_false_iff, beq_eq_false_iff_ne] at h
+  exact ⟨h.1.1, h.1.2, h.2⟩
+
+theorem toUpper_ws (c : Char) : ws c.toUpper = ws c := by
+  rcases toUpper_spec c with h | ⟨h1, h2, _⟩
+  · rw [h]
+  · rw [(layout_of_not _ h1).1, (layout_of_not _ h2).1]
+
+theorem toUpper_bne_bang (c : Char) : (c.toUpper != '!') = (c != '!') := by
+  rcases toUpper_spec c with h | ⟨h1, h2, _⟩
+  · rw [h]
+  · rw [bne_iff_ne.mpr (layout_of_not _ h1).2.1, bne_iff_ne.mpr (layout_of_not _ h2).2.1]
+
+theorem toUpper_beq_eq (c : Char) : (c.toUpper == '=') = (c == '=') := by
+  rcases toUpper_spec c with h | ⟨h1, h2, _⟩
+  · rw [h]
+  · rw [beq_eq_false_iff_ne.mpr (layout_of_not _ h1).2.2, beq_eq_false_iff_ne.mpr (layout_of_not _ h2).2.2]
+
+theorem toUpper_beq_blank (c : Char) : (c.toUpper == ' ') = (c == ' ') := by
+  rcases toUpper_spec c with h | ⟨h1, h2, _⟩
+  · rw [h]
+  · have a : c ≠ ' ' := by intro e; have := (layout_of_not _ h1).1; rw [e] at this; exact absurd this (by decide)
+    have b : c.toUpper ≠ ' ' := by intro e; have := (layout_of_not _ h2).1; rw [e] at this; exact absurd this (by decide)
+    rw [beq_eq_false_iff_ne.mpr a, beq_eq_false_iff_ne.mpr b]
+
+theorem toUpper_idem (c : Char) : c.toUpper.toUpper = c.toUpper := by
+  rcases toUpper_spec c with h | ⟨_, _, h3⟩
+  · rw [h]; exact h
+  · exact h3
+
+theorem upper_cons (c : Char) (l : List Char) : upper (c :: l) = c.toUpper :: upper l := rfl
+
+theorem upper_idem (l : List Char) : upper (upper l) = upper l := by
+  induction l with
+  | nil => rfl
+  | cons c l ih => rw [upper_cons, upper_cons, toUpper_idem, ih]
+
+theorem allWs_upper (l : List Char) : allWs (upper l) = allWs l := by
+  induction l with
+  | nil => rfl
+  | cons c l ih =>
+    simp only [allWs, List.all_cons, upper_cons, toUpper_ws] at ih ⊢
+    rw [ih]
+
+theorem stripComment_cons (c : Char) (l : List Char) :
+    stripComment (c :: l) = if (c != '!') = true then c :: stripComment l else [] := by
+  simp [stripComment, List.takeWhile_cons]
+
+theorem stripComment_upper (l : List Char) : stripComment (upper l) = upper (stripComment l) := by
+  induction l with
+  | nil => rfl
+  | cons c l ih =>
+    rw [upper_cons, stripComment_cons, stripComment_cons, toUpper_bne_bang, ih]
+    by_cases h : (c != '!') = true
+    · simp only [h, ↓reduceIte, upper_cons]
+    · simp only [h]; rfl
+
+theorem startsWs_upper (l : List Char) : startsWs (upper l) = startsWs l := by
+  cases l with
+  | nil => rfl
+  | cons c l => simp only [upper_cons, startsWs, toUpper_ws]
+
+theorem consTok_upper (c : Char) (ts : List Token) : consTok c.toUpper (ts.map upper) = (consTok c ts).map upper := by
+  cases ts <;> simp [consTok, upper]
+
+theorem split_upper (l : List Char) : split (upper l) = (split l).map upper := by
+  induction l with
+  | nil => rfl
+  | cons c cs ih =>
+    rw [upper_cons, split.eq_2, split.eq_2, toUpper_ws, startsWs_upper, ih]
+    by_cases h1 : ws c = true
+    · simp only [h1, ↓reduceIte]
+    · by_cases h2 : startsWs cs = true
+      · simp [h1, h2, upper]
+      · simp [h1, h2, consTok_upper]
+
+theorem trailingEq_upper (l : List Char) : trailingEq (upper l) = trailingEq l := by
+  induction l with
+  | nil => rfl
+  | cons c cs ih => simp only [upper_cons, trailingEq, toUpper_beq_eq, allWs_upper, ih]
+
+theorem body_upper (l : List Char) : body (upper l) = upper (body l) := by
+  induction l with
+  | nil => rfl
+  | cons c cs ih =>
+    simp only [upper_cons, body, toUpper_beq_eq, allWs_upper, ih]
+    cases (c == '=' && allWs cs) <;> simp [upper]
+
+theorem indented_cons (c : Char) (l : List Char) : indented (c :: l) = (c == ' ') := by
+  by_cases h : c = ' '
+  · subst h; rfl
+  · have : (c == ' ') = false := by simpa using h
+    rw [this]; unfold indented; split
+    · rename_i heq; injection heq with h1 _; exact absurd h1 h
+    · rfl
+
+theorem indented_upper (l : List Char) : indented (upper l) = indented l := by
+  cases l with
+  | nil => rfl
+  | cons c l => rw [upper_cons, indented_cons, indented_cons, toUpper_beq_blank]
+
+theorem skip_upper (l : List Char) : skip (upper l) = skip l := by
+  simp only [skip, indented_upper]
+  cases l <;> rfl
+
+theorem plainRem_upper_self (l : List Char) : plainRem (upper l) = plainRem l :=
+  plainRem_upper _ _ (upper_idem l)
+
+theorem isContLine_upper (l : List Char) : isContLine (upper l) = isContLine l := by
+  simp only [isContLine, content, stripComment_upper, trailingEq_upper, plainRem_upper_self]
+
+theorem upperHead_map (t : List Token) : upperHead (t.map upper) = (upperHead t).map upper := by
+  cases t <;> simp [upperHead]
+
+theorem ptoks_upper (l : List Char) : ptoks (upper l) = (ptoks l).map upper := by
+  simp only [ptoks, isContLine_upper, indented_upper, content, stripComment_upper]
+  cases isContLine l <;> cases indented l <;> simp [body_upper, split_upper, upperHead_map]
+
+/-- every letter of every token in capitals -/
+def upAll (n : List (List Token)) : List (List Token) := n.map (·.map upper)
+
+theorem normAux_upper (f : List Line) : ∀ st : Option (List Token),
+    normAux (st.map (·.map upper)) (f.map upper) = (normAux st f).map upAll := by
+  induction f with
+  | nil => intro st; cases st <;> rfl
+  | cons l rest ih =>
+    intro st
+    have ih0 := ih none
+    simp only [Option.map_none] at ih0
+    cases st with
+    | none =>
+      simp only [Option.map_none, List.map_cons, normAux, skip_upper, isContLine_upper, ptoks_upper, List.isEmpty_map]
+      by_cases hs : skip l = true
+      · simp only [hs, ↓reduceIte]; exact ih0
+      · simp only [hs, Bool.false_eq_true, ↓reduceIte]
+        by_cases hc : isContLine l = true
+        · simp only [hc, ↓reduceIte]
+          by_cases he : (ptoks l).isEmpty = true
+          · simp [he]
+          · simp only [he, Bool.false_eq_true, ↓reduceIte]
+            have := ih (some (ptoks l))
+            simpa using this
+        · simp only [hc, Bool.false_eq_true, ↓reduceIte, ih0]
+          cases normAux none rest <;> simp [upAll]
+    | some acc =>
+      simp only [Option.map_some, List.map_cons, normAux, indented_upper, isContLine_upper, ptoks_upper]
+      by_cases hi : indented l = true
+      · simp only [hi, Bool.not_true, Bool.false_eq_true, ↓reduceIte]
+        by_cases hc : isContLine l = true
+        · simp only [hc, ↓reduceIte]
+          have := ih (some (acc ++ ptoks l))
+          simpa using this
+        · simp only [hc, Bool.false_eq_true, ↓reduceIte, ih0]
+          cases normAux none rest <;> simp [upAll]
+      · simp [hi]
+
+/-- **norm_upper** — writing a whole file in capitals (every letter: keywords, the words of a DSR command, element
+    symbols, atom names, residue classes, the text of comments) changes neither whether its layout is valid nor its
+    logical lines, apart from the letter case of the tokens themselves. No hypothesis. -/
+theorem norm_upper (f : List Line) : norm (f.map upper) = (norm f).map upAll := normAux_upper f none
+
+/-- **case_invariance** — two files that differ only in letter case (anywhere) have the same logical token lines up
+    to letter case; in particular the same lines are continued, the same text is comment, and `rem dsr put … =` is
+    continued exactly when `REM DSR PUT … =` is. -/
+theorem case_invariance (f f' : List Line) (h : f.map upper = f'.map upper) :
+    (norm f).map upAll = (norm f').map upAll := by
+  rw [← norm_upper, ← norm_upper, h]
+
+/-- … and the (repaired) continuation loop hands the same tokens, up to letter case, to the rest of the parser -/
+theorem case_invariance_model (f f' : List Line) (n : List (List Token)) (h : f.map upper = f'.map upper)
+    (hv : norm f = some n) : ∃ n', modelTokens f' = .ok n' ∧ upAll n' = upAll n := by
+  have := case_invariance f f' h
+  rw [hv] at this
+  cases hn : norm f' with
+  | none => rw [hn] at this; simp at this
+  | some n' =>
+    rw [hn] at this
+    refine ⟨n', glue_tokens f' n' hn, ?_⟩
+    simpa using this.symm
+
+example : (norm ["rem Dsr put CF3 with C1 c2 = ! d=1".toList, "  on c1 C2 =".toList, " part 2".toList, "end".toList]).map upAll =
+    (norm ["REM DSR PUT CF3 WITH C1 C2 = ! D=1".toList, "  ON C1 C2 =".toList, " PART 2".toList, "END".toList]).map upAll :=
+  case_invariance _ _ (by decide)
+
 end Shelx.C05
